@@ -82,9 +82,32 @@ def _async_matches(compiled, doc):
     return _LOOP.run_until_complete(go())
 
 
+def _canon_tie(ctx):
+    """`Query.canonicalString` (the code-shaped `json.dumps` + two `replace`) and `Rfc.normalName` (RFC 9535 2.7 written from the
+    document) through their own driver operation, against `jsonpath.serialize.canonical_string`, on every string of length <= 2 over
+    the dangerous characters, every C0 control, DEL, C1 controls, the line separators and astral characters."""
+    from jsonpath.serialize import canonical_string
+
+    alpha = list(DANGER) + [chr(i) for i in range(0x20)] + ["\x7f", "\x80", "\x85", "\x9f", "\u2028", "\u2029", "\ufeff", "\uffff", "\U0001f600", "b", "u", "n"]
+    alpha = list(dict.fromkeys(alpha))
+    names = [""] + alpha + [a + b for a in alpha for b in alpha]
+    outs = ctx.driver.run([{"op": "q.canon", "s": s} for s in names], jobs=ctx.jobs)
+    for s, m in zip(names, outs):
+        impl = canonical_string(s)
+        ctx.case(("canon", s), nontrivial=bool(s))
+        if m.get("canon") != impl:
+            ctx.mismatch("q.canon", {"name": s}, impl, m.get("canon"))
+        if "'" + str(m.get("normal")) + "'" != impl:     # `normalName` is the text between the quotes
+            ctx.violation("the member-name part of a normalized path is the RFC 9535 2.7 escaping of the name", {"name": s}, impl, m.get("normal"))
+
+
 def evaluate(ctx, cases):
     import jsonpath
     from jsonpath import JSONPointer
+
+    if not getattr(ctx, "_canon_tie_done", False):
+        ctx._canon_tie_done = True
+        _canon_tie(ctx)
 
     reqs, meta = [], []
     for c in cases:
